@@ -125,6 +125,18 @@ func genGlyph(rng *rand.Rand, o *fontOpts) *type1.Glyph {
 	case 2:
 		g.WidthY = float64(rng.IntN(2001) - 1000)
 		o.f("vertical advance (sbw)")
+	case 3:
+		// a three-em dash in a font with 16384 units per em, and the ends of the
+		// 32-bit range the charstring number format has
+		sign := float64(1 - 2*rng.IntN(2))
+		g.WidthX = sign * float64(32768+rng.IntN(170000))
+		if rng.IntN(4) == 0 {
+			g.WidthX = sign * float64(math.MaxInt32-rng.IntN(1000))
+		}
+		if rng.IntN(3) == 0 {
+			g.WidthY = -sign * float64(32768+rng.IntN(70000))
+		}
+		o.f("advance width beyond 16 bits")
 	}
 	if o.fracWidths && rng.IntN(3) == 0 {
 		g.WidthX += rng.Float64()
@@ -373,10 +385,17 @@ func genFont(rng *rand.Rand, o *fontOpts) *type1.Font {
 		fi.FontMatrix = matrix.Matrix{genNumber(rng) / 1000, 0, 0, genNumber(rng) / 1000, genNumber(rng), genNumber(rng)}
 	}
 	p := f.Private
-	for i, n := 0, 2*rng.IntN(4); i < n; i++ {
+	nBlue, nOther := 2*rng.IntN(4), 2*rng.IntN(3)
+	if rng.IntN(12) == 0 {
+		// more alignment zones than the Type 1 book allows (7 and 5): the
+		// writer takes them, so they belong to the writable domain
+		nBlue, nOther = 2*rng.IntN(17), 2*rng.IntN(13)
+		o.f("more alignment zones than the book allows")
+	}
+	for i := 0; i < nBlue; i++ {
 		p.BlueValues = append(p.BlueValues, funit.Int16(rng.IntN(2001)-1000))
 	}
-	for i, n := 0, 2*rng.IntN(3); i < n; i++ {
+	for i := 0; i < nOther; i++ {
 		p.OtherBlues = append(p.OtherBlues, funit.Int16(rng.IntN(2001)-1000))
 	}
 	switch rng.IntN(4) {
